@@ -163,7 +163,7 @@ def h_equity_ranges(ctx: Any) -> None:
     deck = list(Deck.STANDARD)
     pool = [c for c in deck if str(c.rank.value) in 'AKQ']          # 12 cards
     board = [deck[0], deck[5], deck[10], deck[15], pool[ctx.choice('b', len(pool))]]
-    combos = [[pool[0], pool[4]], [pool[1], pool[5]], [pool[2], pool[6]]]     # e.g. Ac Kc / Ad Kd / Ah Kh
+    combos = [[pool[8], pool[4]], [pool[1], pool[2]], [pool[9], pool[5]]]     # Ac Kc / Qd Qh / Ad Kd: different strengths
     other = [[pool[ctx.choice('o1', len(pool))], pool[ctx.choice('o2', len(pool))]]]
     ctx.assume(other[0][0] != other[0][1])
     valid = []
